@@ -264,37 +264,47 @@ func checkC18(c *C18Case) (msg string, skipped string, nviol, ncarriers int) {
 	return "", skipped, nviol, ncarriers
 }
 
+// propC18 is the property; TestC18 drives it with rapid's random generator, FuzzC18Rapid with the coverage-guided
+// native fuzzer (thorough tier).
+func propC18(t *rapid.T) {
+	c := genC18Case(t)
+	msg, skipped, nviol, ncar := checkC18(c)
+	if skipped != "" && ncar == 0 {
+		ev.Excluded(skipped)
+		return
+	}
+	if skipped != "" {
+		ev.Class("agreement-only:" + skipped)
+	}
+	ev.Class("kind=" + c.Base.T.K)
+	ev.Class(fmt.Sprintf("carriers=%d", ncar))
+	if c.Base.Plus && strings.Contains(c.Base.Val.S, " ") {
+		ev.Class("url-blank-written-as-plus")
+	}
+	if c.UrlTwice {
+		ev.Class("url-parameter-occurs-twice")
+	}
+	if c.OddSeg {
+		ev.Class("url-odd-segment-before-our-parameter")
+	}
+	ev.Class(fmt.Sprintf("violated=%s", bucket(nviol)))
+	b, _ := jsonMarshal(c)
+	ev.Case(string(b), len(c.Base.Rules) >= 2 && nviol >= 1, func() interface{} { return c })
+	if msg != "" {
+		ev.Fail(t, "C18", "carriers", c, "%s", msg)
+	}
+}
+
 func TestC18(t *testing.T) {
 	cleanup := setupFS()
 	defer cleanup()
-	rapid.Check(t, func(t *rapid.T) {
-		c := genC18Case(t)
-		msg, skipped, nviol, ncar := checkC18(c)
-		if skipped != "" && ncar == 0 {
-			ev.Excluded(skipped)
-			return
-		}
-		if skipped != "" {
-			ev.Class("agreement-only:" + skipped)
-		}
-		ev.Class("kind=" + c.Base.T.K)
-		ev.Class(fmt.Sprintf("carriers=%d", ncar))
-		if c.Base.Plus && strings.Contains(c.Base.Val.S, " ") {
-			ev.Class("url-blank-written-as-plus")
-		}
-		if c.UrlTwice {
-			ev.Class("url-parameter-occurs-twice")
-		}
-		if c.OddSeg {
-			ev.Class("url-odd-segment-before-our-parameter")
-		}
-		ev.Class(fmt.Sprintf("violated=%s", bucket(nviol)))
-		b, _ := jsonMarshal(c)
-		ev.Case(string(b), len(c.Base.Rules) >= 2 && nviol >= 1, func() interface{} { return c })
-		if msg != "" {
-			ev.Fail(t, "C18", "carriers", c, "%s", msg)
-		}
-	})
+	rapid.Check(t, propC18)
+}
+
+func FuzzC18Rapid(f *testing.F) {
+	cleanup := setupFS()
+	defer cleanup()
+	f.Fuzz(rapid.MakeFuzz(propC18))
 }
 
 func TestC18Replay(t *testing.T) {
